@@ -181,17 +181,14 @@ theorem noSpace_delta (cf : Bool) (s : St) : Delta 0 1 0 s (noSpace cf s).2 :=
 
 def dOf (ok : Bool) : Nat := if ok then 0 else 1
 
-theorem reopenAfterClose_delta (cfg : Cfg) (d : DST) (erSize : Nat) (s : St) :
-    Delta 0 (dOf (reopenAfterClose cfg d erSize s).1) 0 s (reopenAfterClose cfg d erSize s).2 := by
+theorem reopenAfterClose_delta (cfg : Cfg) (d : DST) (s : St) :
+    Delta 0 (dOf (reopenAfterClose cfg d s).1) 0 s (reopenAfterClose cfg d s).2 := by
   unfold reopenAfterClose
   simp only
   have h1 := Delta.ofExt (cbFull_same s).noRec
   split
   · exact h1.trans (noSpace_delta _ _)
-  · have h2 := Delta.ofExt (withUseCur_noRec (cbOpen cfg d) (cbOpen_noRec cfg d) (cbFull s).2)
-    split
-    · exact h1.trans h2
-    · exact (h1.trans h2).trans (Delta.ofExt ((Ext.ev _ .assertFail trivial).trans (Ext.of_log_eq rfl)))
+  · exact h1.trans (Delta.ofExt (withUseCur_noRec (cbOpen cfg d) (cbOpen_noRec cfg d) (cbFull s).2))
 
 theorem reserveTail_delta (cfg : Cfg) (d : DST) (erSize : Nat) (s : St)
     (hn : (reserveTail cfg d erSize s).2.halted = false) :
@@ -201,16 +198,16 @@ theorem reserveTail_delta (cfg : Cfg) (d : DST) (erSize : Nat) (s : St)
   · simp only [hh, Bool.false_eq_true, if_false] at hn ⊢
     split
     · have h1 := Delta.ofExt (withUseCur_noRec (cbClose cfg d) (cbClose_noRec cfg d) s)
-      have h2 := reopenAfterClose_delta cfg d erSize (withUseCur (cbClose cfg d) s)
+      have h2 := reopenAfterClose_delta cfg d (withUseCur (cbClose cfg d) s)
       have := h1.trans h2
       simpa using this
     · exact Delta.refl s
   · simp only [hh, if_true] at hn
     first | cases hn | (rw [hh] at hn; cases hn)
 
-theorem reserve_delta (cfg : Cfg) (d : DST) (erSize : Nat) (s : St)
-    (hn : (reserve cfg d erSize s).2.halted = false) :
-    Delta 0 (dOf (reserve cfg d erSize s).1) 0 s (reserve cfg d erSize s).2 := by
+theorem reserve_delta (cfg : Cfg) (d : DST) (erSize emptySize : Nat) (s : St)
+    (hn : (reserve cfg d erSize emptySize s).2.halted = false) :
+    Delta 0 (dOf (reserve cfg d erSize emptySize s).1) 0 s (reserve cfg d erSize emptySize s).2 := by
   unfold reserve at hn ⊢
   split
   · exact noSpace_delta _ _
@@ -260,10 +257,10 @@ theorem traceEnabled_delta (cfg : Cfg) (d : DST) (e : ERT) (args : Args) (s : St
     (hn : (traceEnabled cfg d e args s).halted = false) :
     ∃ dr dd, dr + dd = 1 ∧ Delta dr dd 0 s (traceEnabled cfg d e args s) := by
   unfold traceEnabled traceAfterReserve at hn ⊢
-  generalize hr : reserve cfg d (erSizeAt d e args s.c.at_) s = r at hn
+  generalize hr : reserve cfg d (erSizeAt d e args s.c.at_) (erSizeAt d e args s.c.offContent) s = r at hn
   cases hh : r.2.halted
   · simp only [hh, Bool.false_eq_true, if_false] at hn ⊢
-    have h1 := reserve_delta cfg d (erSizeAt d e args s.c.at_) s (by rw [hr]; exact hh)
+    have h1 := reserve_delta cfg d (erSizeAt d e args s.c.at_) (erSizeAt d e args s.c.offContent) s (by rw [hr]; exact hh)
     rw [hr] at h1
     cases hok : r.1
     · simp only [hok, Bool.not_false, if_true] at hn ⊢
@@ -271,12 +268,18 @@ theorem traceEnabled_delta (cfg : Cfg) (d : DST) (e : ERT) (args : Args) (s : St
       have := h1.trans (Delta.ofExt (Ext.of_log_eq (s' := r.2.setFlag false) rfl))
       simpa [dOf, hok] using this
     · simp only [hok, Bool.not_true, Bool.false_eq_true, if_false] at hn ⊢
-      refine ⟨1, 0, rfl, ?_⟩
-      have := h1.trans (traceWrite_delta cfg d e args r.2 hn)
-      simpa [dOf, hok] using this
+      by_cases hc : sizeAfterReserve d e args s.c.at_ (erSizeAt d e args s.c.at_) r.2 > r.2.c.room r.2.c.at_
+      · simp only [hc, if_true] at hn ⊢
+        refine ⟨0, 1, rfl, ?_⟩
+        have := (h1.trans (noSpace_delta true r.2)).trans
+          (Delta.ofExt (Ext.of_log_eq (s' := (noSpace true r.2).2.setFlag false) rfl))
+        simpa [dOf, hok] using this
+      · simp only [hc, if_false] at hn ⊢
+        refine ⟨1, 0, rfl, ?_⟩
+        have := h1.trans (traceWrite_delta cfg d e args r.2 hn)
+        simpa [dOf, hok] using this
   · simp only [hh, if_true] at hn
     first | cases hn | (rw [hh] at hn; cases hn)
-
 
 /-- balance between tracing calls that passed their enable test, records and discards -/
 def Bal (s : St) : Prop := s.halted = false → nCall s.log = nRec s.log + nDisc s.log
@@ -383,14 +386,14 @@ theorem cbFull_yes (s : St) (h : (cbFull s).1 = true) : FullYes s (cbFull s).2 :
 theorem noSpace_log (cf : Bool) (s : St) : Ext (fun _ => True) s (noSpace cf s).2 :=
   ⟨[.discard cf], rfl, fun _ _ => trivial⟩
 
-theorem reopenAfterClose_reason (cfg : Cfg) (d : DST) (erSize : Nat) (s : St)
-    (h : (reopenAfterClose cfg d erSize s).1 = false) : FullYes s (reopenAfterClose cfg d erSize s).2 := by
+theorem reopenAfterClose_reason (cfg : Cfg) (d : DST) (s : St)
+    (h : (reopenAfterClose cfg d s).1 = false) : FullYes s (reopenAfterClose cfg d s).2 := by
   unfold reopenAfterClose at h ⊢
   simp only at h ⊢
   cases hf : (cbFull s).1
   · simp only [hf, Bool.false_eq_true, if_false] at h
-    split at h <;> simp at h
-  · simp only [hf, if_true]
+    cases h
+  · simp only [if_true]
     exact (cbFull_yes s hf).before (noSpace_log false _)
 
 theorem reserveTail_reason (cfg : Cfg) (d : DST) (erSize : Nat) (s : St)
@@ -402,7 +405,7 @@ theorem reserveTail_reason (cfg : Cfg) (d : DST) (erSize : Nat) (s : St)
     split
     · rename_i hc
       simp only [hc, if_true] at h
-      exact FullYes.after (withUseCur_noRec (cbClose cfg d) (cbClose_noRec cfg d) s) (reopenAfterClose_reason cfg d erSize _ h)
+      exact FullYes.after (withUseCur_noRec (cbClose cfg d) (cbClose_noRec cfg d) s) (reopenAfterClose_reason cfg d _ h)
     · rename_i hc
       simp only [hc, if_false] at h
       cases h
@@ -410,11 +413,12 @@ theorem reserveTail_reason (cfg : Cfg) (d : DST) (erSize : Nat) (s : St)
     first | cases hn | (rw [hh] at hn; cases hn)
 
 /-- C03, last sentence: `_reserve_er_space` refuses a record only if it cannot fit an empty packet
-    (test against `packet_size - off_content`) or the back end answered "full" during the call -/
-theorem reserve_reason (cfg : Cfg) (d : DST) (erSize : Nat) (s : St)
-    (hn : (reserve cfg d erSize s).2.halted = false) (h : (reserve cfg d erSize s).1 = false) :
-    erSize > s.c.room s.c.offContent ∨ FullYes s (reserve cfg d erSize s).2 := by
-  by_cases h1 : erSize > s.c.room s.c.offContent
+    (its size at the content offset against `packet_size - off_content`) or the back end answered
+    "full" during the call -/
+theorem reserve_reason (cfg : Cfg) (d : DST) (erSize emptySize : Nat) (s : St)
+    (hn : (reserve cfg d erSize emptySize s).2.halted = false) (h : (reserve cfg d erSize emptySize s).1 = false) :
+    emptySize > s.c.room s.c.offContent ∨ FullYes s (reserve cfg d erSize emptySize s).2 := by
+  by_cases h1 : emptySize > s.c.room s.c.offContent
   · exact Or.inl h1
   · refine Or.inr ?_
     unfold reserve at hn h ⊢
@@ -427,7 +431,7 @@ theorem reserve_reason (cfg : Cfg) (d : DST) (erSize : Nat) (s : St)
       · simp only [hf, Bool.false_eq_true, if_false] at hn h ⊢
         exact FullYes.after ((cbFull_same s).noRec.trans (withUseCur_noRec (cbOpen cfg d) (cbOpen_noRec cfg d) _))
           (reserveTail_reason cfg d erSize _ hn h)
-      · simp only [hf, if_true]
+      · simp only [if_true]
         exact (cbFull_yes s hf).before (noSpace_log false _)
 
 end BVM
